@@ -6,9 +6,10 @@ Model: `Model/Filter.lean`.  `verdict mode opts ngram` is what `Filter::AddNGram
 output)` does with one line (`all` = every output file, `only ks` = files `ks`);
 `arpaFile` / `rawFile` are the bytes written to output file `k`.
 
-Proved here: `out_sublist`, `header_counts`, `kept_iff_single`, `kept_iff_union`
-(with the correctness of `FirstIntersectionSorted` for every order of the ranges),
-`kept_iff_multi_partial`, `context_option`, `copy_identity`, `decode_equiv`.
+Proved here: `out_sublist` (+ `out_sublist_binary`), `header_counts`, `kept_iff_single`,
+`kept_iff_union_partial` and `kept_iff_multi_partial` (soundness of `FirstIntersectionSorted` /
+`AllIntersection` for every order of the ranges; completeness by correspondence only),
+`context_option`, `copy_identity`, `decode_equiv` (+ `decode_equiv_sentence`).
 Phrase mode: specification `Tiles` only (tied by correspondence is future work; see
 design_notes/C11.md).
 -/
@@ -87,6 +88,60 @@ theorem kept_iff_single (V : List Bytes) (o : Opts) (g : Bytes) :
 theorem single_verdict_cases (V : List Bytes) (o : Opts) (g : Bytes) :
     verdict (.single V) o g = .all ∨ verdict (.single V) o g = .only [] := by
   simp only [verdict, verdictWords]; split <;> simp
+
+/-- **kept_iff_union** (partial: the direction "kept ⇒ some sentence contains every non-tag
+word", i.e. soundness of `FirstIntersectionSorted` for the order of ranges the driver uses — the
+lemma `firstInter_mem` holds for *every* order, which covers `std::sort`'s unspecified ties.
+Missing: "some sentence contains them all ⇒ kept" (completeness of the restart loop; needs the
+sortedness of posting lists and the fuel bound) — covered by the correspondence run only). -/
+theorem kept_iff_union_partial (sents : List (List Bytes)) (o : Opts) (g : Bytes)
+    (h : verdict (.union sents) o g = .all) :
+    ∃ c : Nat, ∀ w ∈ (words (if o.context then contextOf g else g)).filter (fun w => !isTag w),
+      ∃ sent : List Bytes, sents[c]? = some sent ∧ w ∈ sent := by
+  simp only [verdict, verdictWords] at h
+  generalize words (if o.context then contextOf g else g) = ws at h ⊢
+  have hp : passUnion sents ws = true := by
+    by_cases hp : passUnion sents ws = true
+    · exact hp
+    · simp [hp] at h
+  clear h
+  have h := hp
+  unfold passUnion at h
+  cases hg : gatherSets sents ws with
+  | none => rw [hg] at h; simp at h
+  | some sets =>
+    rw [hg] at h
+    cases sets with
+    | nil => exact ⟨sents.length, gatherSets_spec sents ws [] hg sents.length (by intro s hs; cases hs)⟩
+    | cons s0 rest =>
+      simp only at h
+      cases hf : firstInter (sortBySize (s0 :: rest)) with
+      | none => rw [hf] at h; simp at h
+      | some m =>
+        refine ⟨m, gatherSets_spec sents ws _ hg m ?_⟩
+        intro s hs
+        exact firstInter_mem hf s ((mem_sortBySize s _).mpr hs)
+
+/-- **kept_iff_multi** (partial: "a line is sent to file `s` only if sentence `s` contains every
+non-tag word" — soundness of `AllIntersection`; and a line without non-tag words goes to all
+files.  Missing: every sentence of the intersection is reported, exactly once — covered by the
+correspondence run only). -/
+theorem kept_iff_multi_partial (sents : List (List Bytes)) (ws : List Bytes) (ks : List Nat) (s : Nat)
+    (h : multiVerdict sents ws = .only ks) (hs : s ∈ ks) :
+    ∀ w ∈ ws.filter (fun w => !isTag w), ∃ sent : List Bytes, sents[s]? = some sent ∧ w ∈ sent := by
+  unfold multiVerdict at h
+  cases hg : gatherSets sents ws with
+  | none => rw [hg] at h; simp at h; subst h; cases hs
+  | some sets =>
+    rw [hg] at h
+    cases sets with
+    | nil => simp at h
+    | cons s0 rest =>
+      simp only at h
+      injection h with h; subst h
+      apply gatherSets_spec sents ws _ hg s
+      intro t ht
+      exact allInterFuel_mem _ _ s hs t ((mem_sortBySize t _).mpr ht)
 
 /-- **context_option**: with `context` the filter looks at the n-gram without its last word
 (everything before the last space at a position > 0) -/
